@@ -442,9 +442,13 @@ def correspondence(rng, extra=None, quick=True, n_random=None, exhaustive=None):
     except Exception as e:
         return {'build_ok': False, 'build_msg': 'correspondence run failed: ' + str(e)[-1500:], 'disagreements': [], 'n_disagreements': 0, 'texts': len(items)}
     shown = []
-    for d in sorted(dis, key=lambda d: len(d['text']))[:5]:
+    for d in sorted(dis, key=lambda d: len(d['text']))[:12]:
+        if len(shown) >= 5:
+            break
         try:
             small = shrink(d['text'])
+            if any(x.get('text') == small for x in shown):
+                continue
             i, m = run_impl([small])[0], run_model([small])[0]
             shown.append({'text': small, 'original_text': d['text'], 'generator': d['generator'], 'what': diff_one(small, i, m) or d['what'], 'impl': i, 'model': m})
         except Exception as e:
@@ -465,10 +469,98 @@ def correspondence(rng, extra=None, quick=True, n_random=None, exhaustive=None):
 
 
 LEXER_THEOREMS = {
-    'C12': ['C12_lexer_spans_tile_the_text', 'C12_lexer_diagnostic_spans_valid', 'C12_lexer_total_no_fuel_left'],
-    'C13': ['C13_lexer_reads_back_tokens_and_layout', 'C13_lexer_reads_back_interleaved', 'C13_separator_condition_is_necessary'],
-    'C17': ['C17_lexemes_concatenate_to_the_text', 'C17_token_slices_concatenate_to_the_text'],
+    'C12': ['C12_lexer_spans_tile_the_text', 'C12_lexer_token_spans_valid', 'C12_lexer_diagnostic_spans_valid'],
+    'C13': ['C13_lexer_reads_back_items', 'C13_lexer_reads_back_tokens_and_layouts', 'C13_written_tokens_are_the_non_trivia_items',
+            'C13_separator_condition_is_necessary'],
+    'C17': ['C17_lexemes_concatenate_to_the_text', 'C17_token_slices_concatenate_to_the_text', 'C17_token_kinds_are_the_chunk_results'],
 }
+
+LEXER_SCOPE = {
+    'C12': 'lexing stage only: token spans tile the text on character boundaries, every lexer diagnostic span is a valid non-empty span (all texts, no bound); '
+           'parser and analysis stages stay exploration + parser tie',
+    'C13': 'lexing stage only: every sequence of well-formed items (tokens and trivia) satisfying the exact no-fusion side condition lexes back to itself with no '
+           'diagnostic; the side condition is necessary; parser / typed view stay exploration',
+    'C17': 'lexer side clause only: lexing loses no character (lexemes and span slices concatenate to the text); the formatter stays exploration',
+}
+
+TRUSTED = [
+    'Coq 8.16.1 kernel; vm_compute only in the Example lemmas',
+    'axioms: none (Print Assumptions of every theorem in Props/<id>.v says "Closed under the global context"; re-checked on every run)',
+    'extraction of Lexer.lex: ExtrOcamlBasic only; nat, positive, N stay the extracted datatypes; no Extract Constant / Extract Inductive',
+    'ocaml/lexdriver.ml (reads code points, prints JSON), tools/k4_lexmodel.py (generators, diff), harness/src/front.rs: trusted for the correspondence only',
+    'the theorems are about the MODEL (coq/Model/Lexer.v); they transfer to src/frontend/lexer.rs (logos 0.16 automaton + callbacks + tokenize) only as far as the '
+    'K4L correspondence of this run agrees (sampled and exhaustive-short texts), not by proof',
+]
+
+
+def sample_job_texts(jobs, rng, limit, per_job=400, max_bytes=40000, total_bytes=None):
+    """a bounded sample of the texts the K4 jobs of checks_front explore: [(generator, text)]"""
+    import k4_front
+    out = []
+    for j in jobs:
+        if j.get('gen') == 'seq':
+            n, lo, hi = j['n'], j['lo'], j['hi']
+            idx = range(lo, hi) if hi - lo <= per_job else [rng.randrange(lo, hi) for _ in range(per_job)]
+            ts = [k4_front.seq_text(n, i) for i in idx]
+        else:
+            ts = j.get('texts', [])
+            if len(ts) > per_job:
+                ts = rng.sample(ts, per_job)
+        out += [('k4:' + str(j.get('gen')), t) for t in ts if len(t) <= max_bytes]
+    if len(out) > limit:
+        out = rng.sample(out, limit)
+    # the harness runs the whole front end and the formatter on every text: bound the volume (quick tier: < 40 s in all)
+    total_bytes = total_bytes if total_bytes is not None else limit * 130
+    kept, size = [], 0
+    for g, t in out:
+        if size + len(t) > total_bytes:
+            continue
+        kept.append((g, t))
+        size += len(t)
+    return kept
+
+
+def check_hook(ck, pid, extra=None):
+    """Called by checks_front.check_C12 / check_C13 / check_C17 (one line each): proof step for Props/<pid>.v
+    (build, audit, Print Assumptions), K4L correspondence on the lexer generators plus `extra` = [(generator, text)].
+    A broken proof or a model/implementation disagreement is reported through ck.violation(..., no_input=True).
+    Returns the entries to merge into ck.cov."""
+    t0 = time.time()
+    quick = ck.tier == 'quick'
+    thms = LEXER_THEOREMS.get(pid, [])
+    ok, msg = lv.build_model()
+    audit = lv.audit_sources() if ok else []
+    okp, found, rep = lv.check_props(pid) if ok else (False, [], msg)
+    missing = [t for t in thms if t not in found]
+    proof_ok = ok and okp and not audit and not missing
+    if not proof_ok:
+        why = ('Coq development does not build: ' + msg[-800:]) if not ok else ('forbidden declarations: ' + '; '.join(audit[:5])) if audit else \
+              ('pinned theorems missing from Props/%s.v: %s' % (pid, missing)) if (okp and missing) else ('Props/%s.v does not check: %s' % (pid, rep[-800:]))
+        ck.violation('proof (lexer model, %s): %s' % (pid, why), {'broken': why, 'theorems': thms}, no_input=True)
+    t1 = time.time()
+    summ = correspondence(ck.rng, extra=extra, quick=quick)
+    if not summ.get('build_ok'):
+        ck.violation('K4L correspondence (Lexer.v vs src/frontend/lexer.rs) could not run: %s' % summ.get('build_msg', '')[-800:],
+                     {'broken': summ.get('build_msg', '')[-2000:]}, no_input=True)
+    for d in summ.get('disagreements', [])[:3]:
+        ck.violation('K4L correspondence: the lexer model (coq/Model/Lexer.v) and the real lexer disagree on %r: %s [%d disagreeing texts in this run; the lexer '
+                     'theorems of %s no longer transfer to the implementation]' % (d['text'][:80], d['what'], summ['n_disagreements'], pid),
+                     {'text': d['text'], 'original_text': d.get('original_text'), 'kind': 'lexer_model_disagreement', 'classes': [], 'generator': d.get('generator'),
+                      'impl': d.get('impl'), 'model': d.get('model')}, no_input=True)
+    corr_ok = bool(summ.get('build_ok')) and not summ.get('n_disagreements')
+    return {
+        'obligations': len(thms) + 1,
+        'discharged': (len(thms) if proof_ok else 0) + (1 if corr_ok else 0),
+        'checker_cmd': 'make -C coq (coq_makefile, full .vo) ; coqc -Q . LV Props/%s.v (Print Assumptions parsed) ; source audit grep ; '
+                       'python3 tools/k4_lexmodel.py (K4L correspondence)' % pid,
+        'trusted_base': TRUSTED,
+        'theorems': found if proof_ok else thms,
+        'theorems_assumptions': 'Closed under the global context (all %d)' % len(found) if proof_ok else 'NOT ESTABLISHED in this run',
+        'theorem_scope': LEXER_SCOPE.get(pid, ''),
+        'lexer_model_correspondence': {k: v for k, v in summ.items() if k != 'disagreements'},
+        'lexer_model_disagreements': summ.get('disagreements', []),
+        'lexer_hook_cost_s': {'proof_step': round(t1 - t0, 2), 'correspondence': round(time.time() - t1, 2)},
+    }
 
 
 if __name__ == '__main__':
